@@ -32,6 +32,12 @@ const (
 	reqTimeout = 1 * time.Second
 	// how long a process nri stopped or dropped may take to disappear
 	deathBound = 1 * time.Second
+	// harness-side synchronisation (a probe's own exit, an external plugin's registration):
+	// not a clause of the property; exceeding it discards the case as overloaded
+	syncBound = 10 * time.Second
+	// time given to nri to notice a closed connection (typical: well below 1 ms) before an
+	// external plugin registers; matters for sensitivity only, never for a verdict
+	noticeGrace = 50 * time.Millisecond
 )
 
 var (
@@ -174,6 +180,22 @@ func waitDead(pid int, start string, bound time.Duration) (dead bool, state stri
 	for {
 		alive, st := procAlive(pid, start)
 		if !alive {
+			return true, st, time.Since(t0)
+		}
+		if time.Since(t0) > bound {
+			return false, st, time.Since(t0)
+		}
+		time.Sleep(500 * time.Microsecond)
+	}
+}
+
+// waitGone polls until the process has been waited for — its pid is gone or belongs to
+// another process — or the bound expires. A zombie is not gone.
+func waitGone(pid int, start string, bound time.Duration) (gone bool, state string, took time.Duration) {
+	t0 := time.Now()
+	for {
+		_, st := procAlive(pid, start)
+		if st == "gone" || st == "reused" {
 			return true, st, time.Since(t0)
 		}
 		if time.Since(t0) > bound {
